@@ -12,7 +12,7 @@ from __future__ import annotations
 import ast
 import math
 from dataclasses import dataclass, field
-from typing import Any, Dict, List, Optional, Tuple
+from typing import ClassVar, Any, Dict, List, Optional, Tuple
 
 import numpy as np
 
@@ -123,8 +123,17 @@ class Obj:
     fields: Dict[str, Any] = field(default_factory=dict)
     kind: str = "obj"
 
+    _repr_busy: ClassVar[set] = set()
+
     def __repr__(self):
-        return f"{self.cls.name if self.cls else self.kind}({', '.join(f'{k}={v!r}' for k, v in self.fields.items() if k != 'lineno')})"
+        name = self.cls.name if self.cls else self.kind
+        if id(self) in Obj._repr_busy or len(Obj._repr_busy) > 3:
+            return f"{name}(...)"  # (objects that refer to each other, or nested deeply: not spelled out again)
+        Obj._repr_busy.add(id(self))
+        try:
+            return f"{name}({', '.join(f'{k}={v!r}' for k, v in self.fields.items() if k != 'lineno')})"
+        finally:
+            Obj._repr_busy.discard(id(self))
 
 
 class DynStruct:
@@ -1527,7 +1536,7 @@ class Interp:
         return o
 
     def construct(self, c: ClassInfo, args, kwargs, node):
-        if c.name == "Qubit" and c.module.name.endswith("sdk.qubit"):
+        if c.name == "Qubit" and c.module.name.endswith("sdk.qubit") and not getattr(self.sc, "real_objects", False):
             q = Obj(None, {"name": f"anc{len(self.sc.fresh)}"}, "qubit")
             self.sc.fresh.append(q)
             self.sc.recorded.append(("__new__", q, args, kwargs))
